@@ -90,6 +90,22 @@ Definition spec_merge (files : list file) (isa : N) : list prop :=
             if match c with COr => negb (x =? 0) | CAnd => in_all && negb (x =? 0) | CAndOr => in_all end then [(t, x)] else []
         end
     end) ts.
+(* GNU ld merges nothing when there is a single input object: its property list is copied as parsed, and while the
+   x86 parser drops zero-valued x86 properties, the generic parser keeps a zero-valued UINT32_AND / UINT32_OR entry
+   (elf-properties.c).  gnu_note is the note GNU ld writes; it is spec_merge except for such entries. *)
+Definition is_generic (t : N) : bool := (2952790016 <=? t) && (t <=? 2952855551).   (* b0000000 .. b000ffff *)
+Definition unmerged_zero (files : list file) : list prop :=
+  match files with
+  | [f] => filter (fun p => is_generic (fst p) && (snd p =? 0)) f
+  | _ => []
+  end.
+Fixpoint insp (p : prop) (l : list prop) : list prop :=
+  match l with
+  | [] => [p]
+  | x :: r => if fst p <? fst x then p :: l else if fst p =? fst x then l else x :: insp p r
+  end.
+Definition gnu_note (files : list file) (isa : N) : list prop :=
+  fold_left (fun acc p => insp p acc) (unmerged_zero files) (spec_merge files isa).
 Definition well_formed (files : list file) : Prop := forall f, In f files -> NoDup (map fst f).
 
 (* ---- the stack ---- *)
